@@ -101,6 +101,9 @@ type Universe struct {
 	IDs   []int `json:"ids"`   // component index -> raw ID the type is registered on
 	Cap   int   `json:"cap"`   // CapacityIncrement
 	RCap  int   `json:"rcap"`  // RelationCapacityIncrement (0 = same)
+	// Salt != 0: the component types are wrapped into fresh struct types named after the salt.
+	Salt   int `json:"salt,omitempty"`
+	salted []CompSpec
 }
 
 // N returns the number of active components.
@@ -108,10 +111,53 @@ func (u *Universe) N() int { return len(u.Plain) + len(u.Rel) }
 
 // Spec returns the spec of component index c.
 func (u *Universe) Spec(c int) *CompSpec {
+	if u.Salt != 0 {
+		if u.salted == nil {
+			u.Prepare()
+		}
+		return &u.salted[c]
+	}
 	if c < len(u.Plain) {
 		return &PlainPool[u.Plain[c]]
 	}
 	return &RelPool[u.Rel[c-len(u.Plain)]]
+}
+
+// Prepare builds the salted component types (see Salt). It must be called before the universe
+// is used from several goroutines.
+func (u *Universe) Prepare() {
+	if u.Salt == 0 || u.salted != nil {
+		return
+	}
+	name := fmt.Sprintf("S%d", u.Salt)
+	out := make([]CompSpec, 0, u.N())
+	for _, p := range u.Plain {
+		o := &PlainPool[p]
+		tp := reflect.StructOf([]reflect.StructField{fld(name, o.Type)})
+		out = append(out, spec(o.Name+" salted "+name, tp))
+	}
+	for _, r := range u.Rel {
+		o := &RelPool[r]
+		// keep ecs.Relation embedded first; wrap the remaining fields
+		rest := []reflect.StructField{}
+		for i := 1; i < o.Type.NumField(); i++ {
+			rest = append(rest, o.Type.Field(i))
+		}
+		inner := reflect.StructOf(rest)
+		tp := reflect.StructOf([]reflect.StructField{relField(), fld(name, inner)})
+		out = append(out, spec(o.Name+" salted "+name, tp))
+	}
+	u.salted = out
+}
+
+// WithSalt returns a copy of the universe whose component types are fresh Go types (same
+// shapes and layouts, different identity): types the process has never seen before.
+func (u *Universe) WithSalt(salt int) *Universe {
+	c := *u
+	c.Salt = salt
+	c.salted = nil
+	c.Prepare()
+	return &c
 }
 
 // IsRel reports whether component index c is a relation component.
@@ -158,7 +204,11 @@ func (u *Universe) Register(w *ecs.World) []ecs.ID {
 		if c, ok := byID[id]; ok {
 			out[c] = ecs.TypeID(w, u.Spec(c).Type)
 		} else {
-			ecs.TypeID(w, FillerType(id))
+			if u.Salt != 0 && u.MaxID() < 40 {
+				ecs.TypeID(w, FillerType(1000*u.Salt+id)) // fresh filler types too (few of them)
+			} else {
+				ecs.TypeID(w, FillerType(id))
+			}
 		}
 	}
 	return out
